@@ -8,6 +8,10 @@ expression slice between real runtimes on separate goroutines, imposes TLC's sch
 operation and compares: the structural fingerprint of the shared expressions before/after, every result with
 the specification's and with a solo run against a fresh parse, the literal re-evaluated afterwards.  The same
 scripts also run free (ungated) under the Go race detector.
+
+Launder.tla + elpsdrive launder: the same statement for EVERY callable of the registry (language package and standard
+library): a literal or a view of one in each argument position next to plausible companions, the result then changed
+in place by every mutator the language has, recursively; the literals and the program's fingerprint must not notice.
 """
 import random, json
 from vlib import *
@@ -144,6 +148,10 @@ def _run(V, work, tier):
                 if o["results"][r] != o["solo"][r]:
                     V.add(None, "free-running runtime %d differs from its solo run: %s vs %s" % (r + 1, o["results"][r], o["solo"][r]), {"id": o["id"]})
     V.coverage["free_running_race_runs"] = len(free)
+    # ---- the registry-wide sweep: whatever callable a literal (or a view of one) is handed to, and whatever is done in
+    # place to the result afterwards, the literal and the parsed program read as before (Launder.tla)
+    import launder
+    launder.sweep(V, work, binary, tier, {"literal", "fingerprint"})
     V.coverage["traces_validated_against_impl"] = len(behaviours)
     V.coverage["exhaustive"] = False
     V.coverage["explanation"] = "%d gated behaviours (schedules from TLC) replayed on shared parses; %d free-running 8-goroutine runs under -race" % (len(behaviours), len(free))
